@@ -747,3 +747,33 @@ Proof.
   rewrite Hlen. cbn [done_reading set_state ms_pos good ms_eof ms_fail ms_bad orb negb].
   repeat split; lia.
 Qed.
+
+(* ---------------------------------------------------------------- the destination of a vector read *)
+Lemma vresize_length sz dest n : length (vresize sz dest n) = n.
+Proof.
+  unfold vresize. rewrite app_length, repeat_length, firstn_length. lia.
+Qed.
+
+Lemma voverwrite_full (d v : list (list byte)) : length d = length v -> voverwrite d v = v.
+Proof. intros H. unfold voverwrite. rewrite skipn_all2 by lia. apply app_nil_r. Qed.
+
+(* what the destination holds after a read that delivers is what was decoded, whatever it held before (also for
+   zero elements: the destination is emptied); a read that does not deliver leaves it as it was *)
+Lemma read_vector_into_spec s sz dest :
+  match read_vector s sz with
+  | (RVec v, s') => read_vector_into s sz dest = (RVec v, s', v)
+  | (r, s') => read_vector_into s sz dest = (r, s', dest)
+  end.
+Proof.
+  unfold read_vector_into. destruct (read_vector s sz) as [r s'] eqn:E. destruct r as [|b|v|n]; try reflexivity.
+  now rewrite (voverwrite_full _ v (vresize_length sz dest (length v))).
+Qed.
+
+Lemma read_vector_into_independent s sz d1 d2 v s1 t1 :
+  read_vector_into s sz d1 = (RVec v, s1, t1) ->
+  t1 = v /\ read_vector_into s sz d2 = (RVec v, s1, v).
+Proof.
+  intros H. pose proof (read_vector_into_spec s sz d1) as H1. pose proof (read_vector_into_spec s sz d2) as H2.
+  destruct (read_vector s sz) as [r s'] eqn:E. destruct r as [|b|w|n]; rewrite H1 in H; try discriminate.
+  inversion H; subst. split; [reflexivity | exact H2].
+Qed.
